@@ -347,7 +347,10 @@ fn eval_options(tr: Tr, level: Level, occs: &[&Occ], unit_variant: bool, stage: 
             if loci.is_empty() {
                 loci.push(o.range);
             }
-            out.push(v("unknown-shape-word", loci));
+            // every item that is no shape word is a violation of its own, diagnosed at its own tokens
+            for l in loci {
+                out.push(v("unknown-shape-word", vec![l]));
+            }
         }
         seen.push(o);
     }
@@ -819,6 +822,7 @@ fn container_spellings(tr: Tr) -> Vec<Occ> {
     });
     // items that are no shape word at all: name-value, literal, list, multi-segment path
     v.push(occ("supports", "supports(bogus = 1)", true));
+    v.push(occ("supports", "supports(bogus, any, bogus_two::x, \"bogus\")", true));
     v.push(occ("supports", "supports(\"bogus\")", true));
     v.push(occ("supports", "supports(bogus(x))", true));
     v.push(match tr {
